@@ -113,3 +113,486 @@ theorem cmpDur_trans (m1 d1 s1 n1 m2 d2 s2 n2 m3 d3 s3 n3 : Int)
     cmpDur m1 d1 s1 n1 m3 d3 s3 n3 = .lt := by
   simp only [cmpDur, then_eq_lt, cmpInt_lawful.eq_iff, cmpInt_lt_iff] at h1 h2 ⊢
   omega
+
+/-! ## the numeric block: Integer / Float under a monotone, NaN-free conversion -/
+
+section Num
+open F64
+
+structure CastOK (cast : Int → Nat) : Prop where
+  mono : ∀ i j, i ≤ j → F64.ieeeKey (cast i) ≤ F64.ieeeKey (cast j)
+  noNaN : ∀ i, F64.isNaN (cast i) = false
+
+/-- `Integer(a) < Float(f)` in arithmetic terms -/
+theorem cmpIF_lt_iff {cast : Int → Nat} (h : CastOK cast) (a : Int) (f : Nat) :
+    cmpIF cast a f = .lt ↔
+      (isNaN f = false ∧ ieeeKey (cast a) ≤ ieeeKey f) ∨ (isNaN f = true ∧ isNeg f = false) := by
+  unfold cmpIF partialCmp
+  rw [h.noNaN a]
+  cases hf : isNaN f <;> cases hg : isNeg f <;> simp [cmpInt] <;> ord_arith
+
+theorem cmpFI_lt_iff {cast : Int → Nat} (h : CastOK cast) (f : Nat) (b : Int) :
+    cmpFI cast f b = .lt ↔
+      (isNaN f = false ∧ ieeeKey f < ieeeKey (cast b)) ∨ (isNaN f = true ∧ isNeg f = true) := by
+  unfold cmpFI partialCmp
+  rw [h.noNaN b]
+  cases hf : isNaN f <;> cases hg : isNeg f <;> simp [cmpInt] <;> ord_arith
+
+theorem cmpFI_swap {cast : Int → Nat} (h : CastOK cast) (a : Int) (f : Nat) :
+    cmpFI cast f a = (cmpIF cast a f).swap := by
+  unfold cmpFI cmpIF partialCmp
+  rw [h.noNaN a]
+  cases hf : isNaN f <;> cases hg : isNeg f <;> simp [cmpInt] <;> ord_arith
+
+theorem cmpIF_ne_eq {cast : Int → Nat} (a : Int) (f : Nat) : cmpIF cast a f ≠ .eq := by
+  unfold cmpIF
+  split
+  · rename_i o _; cases o <;> simp [Ordering.then]
+  · split <;> simp
+
+theorem totalCmp_lt_iff (f g : Nat) : totalCmp f g = .lt ↔ totalKey f < totalKey g := by
+  unfold totalCmp; exact cmpInt_lt_iff _ _
+
+theorem key_spec (x : Nat) :
+    ((x < 0x8000000000000000 ∧ totalKey x = x) ∨
+      (0x8000000000000000 ≤ x ∧ totalKey x = 0x7FFFFFFFFFFFFFFF - (x : Int))) ∧
+    ((x = 0x8000000000000000 ∧ ieeeKey x = 0) ∨ (x ≠ 0x8000000000000000 ∧ ieeeKey x = totalKey x)) := by
+  unfold ieeeKey totalKey; ord_arith
+
+/-- arithmetic over the keys of the three bit patterns `x y z` (as atoms, with their case specs) -/
+syntax "num_arith" term:max term:max term:max : tactic
+macro_rules
+  | `(tactic| num_arith $x $y $z) =>
+    `(tactic| (have kx := key_spec $x; have ky := key_spec $y; have kz := key_spec $z
+               simp only [isNaN, isNeg, decide_eq_true_eq, decide_eq_false_iff_not] at *
+               generalize totalKey $x = tx at *; generalize ieeeKey $x = ix at *
+               generalize totalKey $y = ty at *; generalize ieeeKey $y = iy at *
+               generalize totalKey $z = tz at *; generalize ieeeKey $z = iz at *
+               omega))
+
+theorem num_IIF {cast : Int → Nat} (h : CastOK cast) (a b : Int) (f : Nat)
+    (h1 : cmpInt a b = .lt) (h2 : cmpIF cast b f = .lt) : cmpIF cast a f = .lt := by
+  rw [cmpInt_lt_iff] at h1
+  rw [cmpIF_lt_iff h] at h2 ⊢
+  have hm := h.mono a b (by omega)
+  have na := h.noNaN a
+  have nb := h.noNaN b
+  generalize cast a = ca at *
+  generalize cast b = cb at *
+  num_arith ca cb f
+
+theorem num_IFI {cast : Int → Nat} (h : CastOK cast) (a : Int) (f : Nat) (c : Int)
+    (h1 : cmpIF cast a f = .lt) (h2 : cmpFI cast f c = .lt) : cmpInt a c = .lt := by
+  rw [cmpInt_lt_iff]
+  rw [cmpIF_lt_iff h] at h1
+  rw [cmpFI_lt_iff h] at h2
+  apply Decidable.byContradiction
+  intro hn
+  have hm := h.mono c a (by omega)
+  have na := h.noNaN a
+  have nc := h.noNaN c
+  generalize cast a = ca at *
+  generalize cast c = cc at *
+  num_arith ca cc f
+
+theorem num_IFF {cast : Int → Nat} (h : CastOK cast) (a : Int) (f g : Nat)
+    (h1 : cmpIF cast a f = .lt) (h2 : totalCmp f g = .lt) : cmpIF cast a g = .lt := by
+  rw [totalCmp_lt_iff] at h2
+  rw [cmpIF_lt_iff h] at h1 ⊢
+  have na := h.noNaN a
+  generalize cast a = ca at *
+  num_arith ca f g
+
+theorem num_FII {cast : Int → Nat} (h : CastOK cast) (f : Nat) (b c : Int)
+    (h1 : cmpFI cast f b = .lt) (h2 : cmpInt b c = .lt) : cmpFI cast f c = .lt := by
+  rw [cmpInt_lt_iff] at h2
+  rw [cmpFI_lt_iff h] at h1 ⊢
+  have hm := h.mono b c (by omega)
+  have nb := h.noNaN b
+  have nc := h.noNaN c
+  generalize cast b = cb at *
+  generalize cast c = cc at *
+  num_arith cb cc f
+
+theorem num_FIF {cast : Int → Nat} (h : CastOK cast) (f : Nat) (b : Int) (g : Nat)
+    (h1 : cmpFI cast f b = .lt) (h2 : cmpIF cast b g = .lt) : totalCmp f g = .lt := by
+  rw [totalCmp_lt_iff]
+  rw [cmpFI_lt_iff h] at h1
+  rw [cmpIF_lt_iff h] at h2
+  have nb := h.noNaN b
+  generalize cast b = cb at *
+  num_arith cb f g
+
+theorem num_FFI {cast : Int → Nat} (h : CastOK cast) (f g : Nat) (c : Int)
+    (h1 : totalCmp f g = .lt) (h2 : cmpFI cast g c = .lt) : cmpFI cast f c = .lt := by
+  rw [totalCmp_lt_iff] at h1
+  rw [cmpFI_lt_iff h] at h2 ⊢
+  have nc := h.noNaN c
+  generalize cast c = cc at *
+  num_arith cc f g
+
+theorem cmpFI_ne_eq {cast : Int → Nat} (f : Nat) (a : Int) : cmpFI cast f a ≠ .eq := by
+  unfold cmpFI
+  split
+  · rename_i o _; cases o <;> simp [Ordering.then]
+  · split <;> simp
+
+end Num
+
+
+/-! ## the mutual inductions over `PV` / `PVs` / `PVm` -/
+
+/-- what the order laws need from the two mixed-number arms -/
+structure NumOK (nif : Int → Nat → Ordering) (nfi : Nat → Int → Ordering) : Prop where
+  if_ne : ∀ a f, nif a f ≠ .eq
+  fi_ne : ∀ f a, nfi f a ≠ .eq
+  swap : ∀ a f, nfi f a = (nif a f).swap
+  iif : ∀ a b f, cmpInt a b = .lt → nif b f = .lt → nif a f = .lt
+  ifi : ∀ a f c, nif a f = .lt → nfi f c = .lt → cmpInt a c = .lt
+  iff' : ∀ a f g, nif a f = .lt → F64.totalCmp f g = .lt → nif a g = .lt
+  fii : ∀ f b c, nfi f b = .lt → cmpInt b c = .lt → nfi f c = .lt
+  fif : ∀ f b g, nfi f b = .lt → nif b g = .lt → F64.totalCmp f g = .lt
+  ffi : ∀ f g c, F64.totalCmp f g = .lt → nfi g c = .lt → nfi f c = .lt
+
+theorem numOK_of_castOK {cast : Int → Nat} (h : CastOK cast) : NumOK (cmpIF cast) (cmpFI cast) where
+  if_ne := cmpIF_ne_eq
+  fi_ne := cmpFI_ne_eq
+  swap := cmpFI_swap h
+  iif := num_IIF h
+  ifi := num_IFI h
+  iff' := num_IFF h
+  fii := num_FII h
+  fif := num_FIF h
+  ffi := num_FFI h
+
+section
+variable {nif : Int → Nat → Ordering} {nfi : Nat → Int → Ordering}
+
+mutual
+theorem cmpG_eq_iff (h : NumOK nif nfi) : ∀ a b : PV, cmpG nif nfi a b = .eq ↔ a = b
+  | .str x, b => by cases b <;> simp [cmpG, bucket, cmpNat, (cmpLex_lawful cmpNat_lawful).eq_iff]
+  | .int x, b => by cases b <;> simp [cmpG, bucket, cmpNat, cmpInt_lawful.eq_iff, h.if_ne]
+  | .flt x, b => by cases b <;> simp [cmpG, bucket, cmpNat, F64.totalCmp_lawful.eq_iff, h.fi_ne]
+  | .bool x, b => by cases b <;> simp [cmpG, bucket, cmpNat, cmpBool_lawful.eq_iff]
+  | .dt x, b => by cases b <;> simp [cmpG, bucket, cmpNat, cmpInt_lawful.eq_iff]
+  | .arr xs, b => by cases b <;> simp [cmpG, bucket, cmpNat, cmpArrG_eq_iff h xs]
+  | .map m, b => by
+    cases b with
+    | map n =>
+      simp only [cmpG, then_eq_eq, (cmpLex_lawful (cmpLex_lawful cmpNat_lawful)).eq_iff,
+        cmpValsG_eq_iff h m n, PV.map.injEq]
+    | _ => simp [cmpG, bucket, cmpNat]
+  | .vec x, b => by cases b <;> simp [cmpG, bucket, cmpNat, (cmpLex_lawful cmpNat_lawful).eq_iff]
+  | .dur m1 d1 s1 n1, b => by cases b <;> simp [cmpG, bucket, cmpNat, cmpDur_eq_iff]
+  | .null, b => by cases b <;> simp [cmpG, bucket, cmpNat]
+theorem cmpArrG_eq_iff (h : NumOK nif nfi) : ∀ xs ys : PVs, cmpArrG nif nfi xs ys = .eq ↔ xs = ys
+  | .nil, ys => by cases ys <;> simp [cmpArrG]
+  | .cons x xs, ys => by
+    cases ys with
+    | nil => simp [cmpArrG]
+    | cons y ys => simp [cmpArrG, cmpG_eq_iff h x y, cmpArrG_eq_iff h xs ys]
+theorem cmpValsG_eq_iff (h : NumOK nif nfi) :
+    ∀ m n : PVm, (m.keys = n.keys ∧ cmpValsG nif nfi m n = .eq) ↔ m = n
+  | .nil, n => by cases n <;> simp [cmpValsG, PVm.keys]
+  | .cons k v m, n => by
+    cases n with
+    | nil => simp [PVm.keys]
+    | cons l w n =>
+      simp only [PVm.keys, List.cons.injEq, cmpValsG, then_eq_eq, cmpG_eq_iff h v w, PVm.cons.injEq,
+        ← cmpValsG_eq_iff h m n]
+      constructor
+      · rintro ⟨⟨a, b⟩, c, d⟩; exact ⟨a, c, b, d⟩
+      · rintro ⟨a, c, b, d⟩; exact ⟨⟨a, b⟩, c, d⟩
+end
+
+section
+variable {nif : Int → Nat → Ordering} {nfi : Nat → Int → Ordering}
+
+theorem cmpG_bucket (nif nfi) (a b : PV) (h : bucket a ≠ bucket b) :
+    cmpG nif nfi a b = cmpNat (bucket a) (bucket b) := by
+  cases a <;> cases b <;> first | (exfalso; exact h rfl) | simp [cmpG]
+
+theorem swap_swap' {a b : Ordering} (h : a = b.swap) : b = a.swap := by
+  cases a <;> cases b <;> simp_all [Ordering.swap]
+
+mutual
+theorem cmpG_swap (h : NumOK nif nfi) : ∀ a b : PV, cmpG nif nfi b a = (cmpG nif nfi a b).swap
+  | .str x, b => by
+    cases b with
+    | str y => simpa [cmpG] using (cmpLex_lawful cmpNat_lawful).swap x y
+    | _ => simp [cmpG, bucket, cmpNat, Ordering.swap]
+  | .int x, b => by
+    cases b with
+    | int y => simpa [cmpG] using cmpInt_lawful.swap x y
+    | flt y => simpa [cmpG] using h.swap x y
+    | _ => simp [cmpG, bucket, cmpNat, Ordering.swap]
+  | .flt x, b => by
+    cases b with
+    | flt y => simpa [cmpG] using F64.totalCmp_lawful.swap x y
+    | int y => simpa [cmpG] using swap_swap' (h.swap y x)
+    | _ => simp [cmpG, bucket, cmpNat, Ordering.swap]
+  | .bool x, b => by
+    cases b with
+    | bool y => simpa [cmpG] using cmpBool_lawful.swap x y
+    | _ => simp [cmpG, bucket, cmpNat, Ordering.swap]
+  | .dt x, b => by
+    cases b with
+    | dt y => simpa [cmpG] using cmpInt_lawful.swap x y
+    | _ => simp [cmpG, bucket, cmpNat, Ordering.swap]
+  | .arr xs, b => by
+    cases b with
+    | arr ys => simpa [cmpG] using cmpArrG_swap h xs ys
+    | _ => simp [cmpG, bucket, cmpNat, Ordering.swap]
+  | .map m, b => by
+    cases b with
+    | map n =>
+      simp only [cmpG, then_swap, cmpValsG_swap h m n,
+        (cmpLex_lawful (cmpLex_lawful cmpNat_lawful)).swap m.keys n.keys]
+    | _ => simp [cmpG, bucket, cmpNat, Ordering.swap]
+  | .vec x, b => by
+    cases b with
+    | vec y => simpa [cmpG] using (cmpLex_lawful cmpNat_lawful).swap x y
+    | _ => simp [cmpG, bucket, cmpNat, Ordering.swap]
+  | .dur m1 d1 s1 n1, b => by
+    cases b with
+    | dur m2 d2 s2 n2 => simpa [cmpG] using cmpDur_swap m1 d1 s1 n1 m2 d2 s2 n2
+    | _ => simp [cmpG, bucket, cmpNat, Ordering.swap]
+  | .null, b => by cases b <;> simp [cmpG, bucket, cmpNat, Ordering.swap]
+theorem cmpArrG_swap (h : NumOK nif nfi) :
+    ∀ xs ys : PVs, cmpArrG nif nfi ys xs = (cmpArrG nif nfi xs ys).swap
+  | .nil, ys => by cases ys <;> simp [cmpArrG, Ordering.swap]
+  | .cons x xs, ys => by
+    cases ys with
+    | nil => simp [cmpArrG, Ordering.swap]
+    | cons y ys => simp only [cmpArrG, then_swap, cmpG_swap h x y, cmpArrG_swap h xs ys]
+theorem cmpValsG_swap (h : NumOK nif nfi) :
+    ∀ m n : PVm, cmpValsG nif nfi n m = (cmpValsG nif nfi m n).swap
+  | .nil, n => by cases n <;> simp [cmpValsG, Ordering.swap]
+  | .cons k v m, n => by
+    cases n with
+    | nil => simp [cmpValsG, Ordering.swap]
+    | cons l w n => simp only [cmpValsG, then_swap, cmpG_swap h v w, cmpValsG_swap h m n]
+end
+
+theorem cmpG_lt_bucket {a b : PV} (h1 : cmpG nif nfi a b = .lt) : bucket a ≤ bucket b := by
+  apply Decidable.byContradiction
+  intro hn
+  rw [cmpG_bucket _ _ _ _ (by omega), cmpNat_lt_iff] at h1
+  omega
+
+theorem lex_step {o1 o2 o3 r1 r2 r3 : Ordering}
+    (tll : o1 = .lt → o2 = .lt → o3 = .lt)
+    (tle : o1 = .lt → o2 = .eq → o3 = .lt)
+    (tel : o1 = .eq → o2 = .lt → o3 = .lt)
+    (tee : o1 = .eq → o2 = .eq → o3 = .eq)
+    (tr : r1 = .lt → r2 = .lt → r3 = .lt)
+    (h1 : o1.then r1 = .lt) (h2 : o2.then r2 = .lt) : o3.then r3 = .lt := by
+  rw [then_eq_lt] at h1 h2 ⊢
+  rcases h1 with h1 | ⟨e1, h1⟩ <;> rcases h2 with h2 | ⟨e2, h2⟩
+  · exact Or.inl (tll h1 h2)
+  · exact Or.inl (tle h1 e2)
+  · exact Or.inl (tel e1 h2)
+  · exact Or.inr ⟨tee e1 e2, tr h1 h2⟩
+
+/-- transitivity of a comparator at one triple, given that `eq` is identity at that triple -/
+theorem lex_step' {α : Type} {c : α → α → Ordering} {x y z : α} {r1 r2 r3 : Ordering}
+    (e12 : c x y = .eq ↔ x = y) (e23 : c y z = .eq ↔ y = z) (ezz : c z z = .eq)
+    (t : c x y = .lt → c y z = .lt → c x z = .lt)
+    (tr : r1 = .lt → r2 = .lt → r3 = .lt)
+    (h1 : (c x y).then r1 = .lt) (h2 : (c y z).then r2 = .lt) : (c x z).then r3 = .lt := by
+  refine lex_step t ?_ ?_ ?_ tr h1 h2
+  · intro a b; rw [← e23.1 b]; exact a
+  · intro a b; rw [e12.1 a]; exact b
+  · intro a b; rw [e12.1 a, e23.1 b]; exact ezz
+
+mutual
+theorem cmpG_trans (h : NumOK nif nfi) :
+    ∀ a b c : PV, cmpG nif nfi a b = .lt → cmpG nif nfi b c = .lt → cmpG nif nfi a c = .lt
+  | a, b, c, h1, h2 => by
+    have b1 := cmpG_lt_bucket h1
+    have b2 := cmpG_lt_bucket h2
+    by_cases hb : bucket a < bucket c
+    · rw [cmpG_bucket _ _ _ _ (by omega), cmpNat_lt_iff]; exact hb
+    · have e1 : bucket b = bucket a := by omega
+      have e2 : bucket c = bucket a := by omega
+      match a with
+      | .str x =>
+        cases b <;> simp [bucket] at e1
+        cases c <;> simp [bucket] at e2
+        simp only [cmpG] at h1 h2 ⊢
+        exact (cmpLex_lawful cmpNat_lawful).trans _ _ _ h1 h2
+      | .int x =>
+        cases b <;> simp [bucket] at e1 <;> cases c <;> simp [bucket] at e2 <;>
+          simp only [cmpG] at h1 h2 ⊢
+        · exact cmpInt_lawful.trans _ _ _ h1 h2
+        · exact h.iif _ _ _ h1 h2
+        · exact h.ifi _ _ _ h1 h2
+        · exact h.iff' _ _ _ h1 h2
+      | .flt x =>
+        cases b <;> simp [bucket] at e1 <;> cases c <;> simp [bucket] at e2 <;>
+          simp only [cmpG] at h1 h2 ⊢
+        · exact h.fii _ _ _ h1 h2
+        · exact h.fif _ _ _ h1 h2
+        · exact h.ffi _ _ _ h1 h2
+        · exact F64.totalCmp_lawful.trans _ _ _ h1 h2
+      | .bool x =>
+        cases b <;> simp [bucket] at e1
+        cases c <;> simp [bucket] at e2
+        simp only [cmpG] at h1 h2 ⊢
+        exact cmpBool_lawful.trans _ _ _ h1 h2
+      | .dt x =>
+        cases b <;> simp [bucket] at e1
+        cases c <;> simp [bucket] at e2
+        simp only [cmpG] at h1 h2 ⊢
+        exact cmpInt_lawful.trans _ _ _ h1 h2
+      | .arr xs =>
+        cases b <;> simp [bucket] at e1
+        cases c <;> simp [bucket] at e2
+        simp only [cmpG] at h1 h2 ⊢
+        exact cmpArrG_trans h xs _ _ h1 h2
+      | .map m =>
+        cases b <;> simp [bucket] at e1
+        cases c <;> simp [bucket] at e2
+        rename_i n p
+        simp only [cmpG] at h1 h2 ⊢
+        have LK := cmpLex_lawful (cmpLex_lawful cmpNat_lawful)
+        exact lex_step' (LK.eq_iff _ _) (LK.eq_iff _ _) (LK.refl _) (LK.trans _ _ _)
+          (cmpValsG_trans h m n p) h1 h2
+      | .vec x =>
+        cases b <;> simp [bucket] at e1
+        cases c <;> simp [bucket] at e2
+        simp only [cmpG] at h1 h2 ⊢
+        exact (cmpLex_lawful cmpNat_lawful).trans _ _ _ h1 h2
+      | .dur m1 d1 s1 n1 =>
+        cases b <;> simp [bucket] at e1
+        cases c <;> simp [bucket] at e2
+        simp only [cmpG] at h1 h2 ⊢
+        exact cmpDur_trans _ _ _ _ _ _ _ _ _ _ _ _ h1 h2
+      | .null =>
+        cases b <;> simp [bucket] at e1
+        simp [cmpG] at h1
+theorem cmpArrG_trans (h : NumOK nif nfi) :
+    ∀ xs ys zs : PVs, cmpArrG nif nfi xs ys = .lt → cmpArrG nif nfi ys zs = .lt →
+      cmpArrG nif nfi xs zs = .lt
+  | .nil, ys, zs, h1, h2 => by
+    cases ys <;> cases zs <;> simp_all [cmpArrG]
+  | .cons x xs, ys, zs, h1, h2 => by
+    cases ys with
+    | nil => simp [cmpArrG] at h1
+    | cons y ys =>
+      cases zs with
+      | nil => simp [cmpArrG] at h2
+      | cons z zs =>
+        simp only [cmpArrG] at h1 h2 ⊢
+        exact lex_step' (cmpG_eq_iff h x y) (cmpG_eq_iff h y z) ((cmpG_eq_iff h z z).2 rfl)
+          (cmpG_trans h x y z) (cmpArrG_trans h xs ys zs) h1 h2
+theorem cmpValsG_trans (h : NumOK nif nfi) :
+    ∀ m n p : PVm, cmpValsG nif nfi m n = .lt → cmpValsG nif nfi n p = .lt →
+      cmpValsG nif nfi m p = .lt
+  | .nil, n, p, h1, h2 => by simp [cmpValsG] at h1
+  | .cons k v m, n, p, h1, h2 => by
+    cases n with
+    | nil => simp [cmpValsG] at h1
+    | cons l w n =>
+      cases p with
+      | nil => simp [cmpValsG] at h2
+      | cons j u p =>
+        simp only [cmpValsG] at h1 h2 ⊢
+        exact lex_step' (cmpG_eq_iff h v w) (cmpG_eq_iff h w u) ((cmpG_eq_iff h u u).2 rfl)
+          (cmpG_trans h v w u) (cmpValsG_trans h m n p) h1 h2
+end
+
+end
+
+end
+
+/-! ## derived `==` versus bit identity -/
+
+theorem F64.ieeeEq_iff (x y : Nat) :
+    F64.ieeeEq x y = true ↔ (F64.isNaN x = false ∧ F64.normZero x = F64.normZero y) := by
+  simp only [F64.ieeeEq, F64.isNaN, F64.isZero, F64.normZero, Bool.and_eq_true, Bool.not_eq_true',
+    Bool.or_eq_true, beq_iff_eq, decide_eq_false_iff_not]
+  ord_arith
+
+theorem F32.ieeeEq_iff (x y : Nat) :
+    F32.ieeeEq x y = true ↔ (F32.isNaN x = false ∧ F32.normZero x = F32.normZero y) := by
+  simp only [F32.ieeeEq, F32.isNaN, F32.isZero, F32.normZero, Bool.and_eq_true, Bool.not_eq_true',
+    Bool.or_eq_true, beq_iff_eq, decide_eq_false_iff_not]
+  ord_arith
+
+theorem lanesEq_iff : ∀ a b : List Nat,
+    lanesEq a b = true ↔ ((a.all fun x => !F32.isNaN x) = true ∧ a.map F32.normZero = b.map F32.normZero)
+  | [], b => by cases b <;> simp [lanesEq]
+  | x :: xs, b => by
+    cases b with
+    | nil => simp [lanesEq]
+    | cons y ys =>
+      simp only [lanesEq, Bool.and_eq_true, F32.ieeeEq_iff, lanesEq_iff xs ys, List.all_cons,
+        Bool.not_eq_true', List.map_cons, List.cons.injEq]
+      constructor
+      · rintro ⟨⟨a, b⟩, c, d⟩; exact ⟨⟨a, c⟩, b, d⟩
+      · rintro ⟨⟨a, c⟩, b, d⟩; exact ⟨⟨a, b⟩, c, d⟩
+
+mutual
+theorem beq_iff : ∀ a b : PV, beq a b = true ↔ (noNaN a = true ∧ normZero a = normZero b)
+  | .str x, b => by cases b <;> simp [beq, noNaN, normZero]
+  | .int x, b => by cases b <;> simp [beq, noNaN, normZero]
+  | .flt x, b => by cases b <;> simp [beq, noNaN, normZero, F64.ieeeEq_iff]
+  | .bool x, b => by cases b <;> simp [beq, noNaN, normZero]
+  | .dt x, b => by cases b <;> simp [beq, noNaN, normZero]
+  | .arr xs, b => by cases b <;> simp [beq, noNaN, normZero, beqArr_iff xs]
+  | .map m, b => by cases b <;> simp [beq, noNaN, normZero, beqMap_iff m]
+  | .vec x, b => by cases b <;> simp [beq, noNaN, normZero, lanesEq_iff]
+  | .dur m1 d1 s1 n1, b => by cases b <;> simp [beq, noNaN, normZero, and_assoc]
+  | .null, b => by cases b <;> simp [beq, noNaN, normZero]
+theorem beqArr_iff : ∀ a b : PVs, beqArr a b = true ↔ (noNaNArr a = true ∧ normZeroArr a = normZeroArr b)
+  | .nil, b => by cases b <;> simp [beqArr, noNaNArr, normZeroArr]
+  | .cons x xs, b => by
+    cases b with
+    | nil => simp [beqArr, normZeroArr]
+    | cons y ys =>
+      simp only [beqArr, Bool.and_eq_true, beq_iff x y, beqArr_iff xs ys, noNaNArr, normZeroArr,
+        PVs.cons.injEq]
+      constructor
+      · rintro ⟨⟨a, b⟩, c, d⟩; exact ⟨⟨a, c⟩, b, d⟩
+      · rintro ⟨⟨a, c⟩, b, d⟩; exact ⟨⟨a, b⟩, c, d⟩
+theorem beqMap_iff : ∀ a b : PVm, beqMap a b = true ↔ (noNaNMap a = true ∧ normZeroMap a = normZeroMap b)
+  | .nil, b => by cases b <;> simp [beqMap, noNaNMap, normZeroMap]
+  | .cons k v m, b => by
+    cases b with
+    | nil => simp [beqMap, normZeroMap]
+    | cons l w n =>
+      simp only [beqMap, Bool.and_eq_true, beq_iff v w, beqMap_iff m n, noNaNMap, normZeroMap,
+        PVm.cons.injEq, beq_iff_eq]
+      constructor
+      · rintro ⟨⟨e, a, b⟩, c, d⟩; exact ⟨⟨a, c⟩, e, b, d⟩
+      · rintro ⟨⟨a, c⟩, e, b, d⟩; exact ⟨⟨e, a, b⟩, c, d⟩
+end
+
+mutual
+theorem same_iff : ∀ a b : PV, same a b = true ↔ a = b
+  | .str x, b => by cases b <;> simp [same]
+  | .int x, b => by cases b <;> simp [same]
+  | .flt x, b => by cases b <;> simp [same]
+  | .bool x, b => by cases b <;> simp [same]
+  | .dt x, b => by cases b <;> simp [same]
+  | .arr xs, b => by cases b <;> simp [same, sameArr_iff xs]
+  | .map m, b => by cases b <;> simp [same, sameMap_iff m]
+  | .vec x, b => by cases b <;> simp [same]
+  | .dur m1 d1 s1 n1, b => by cases b <;> simp [same, and_assoc]
+  | .null, b => by cases b <;> simp [same]
+theorem sameArr_iff : ∀ a b : PVs, sameArr a b = true ↔ a = b
+  | .nil, b => by cases b <;> simp [sameArr]
+  | .cons x xs, b => by
+    cases b with
+    | nil => simp [sameArr]
+    | cons y ys => simp [sameArr, same_iff x y, sameArr_iff xs ys]
+theorem sameMap_iff : ∀ a b : PVm, sameMap a b = true ↔ a = b
+  | .nil, b => by cases b <;> simp [sameMap]
+  | .cons k v m, b => by
+    cases b with
+    | nil => simp [sameMap]
+    | cons l w n => simp [sameMap, same_iff v w, sameMap_iff m n, and_assoc]
+end
+
+end SgModel.PV
